@@ -38,16 +38,32 @@ func TestMain(m *testing.M) {
 type Case struct {
 	Prog    *kgen.Program `json:"prog"`
 	GPUType string        `json:"gpu_type"`
+	// shape of the timing GPU (0 = shipped): few compute units give high occupancy cheaply
+	CUPerSA int `json:"cu_per_sa,omitempty"`
+	SAs     int `json:"shader_arrays,omitempty"`
 }
 
 func genCase(t *rapid.T) Case {
 	var c Case
 	c.GPUType = rapid.SampledFrom([]string{"r9nano", "r9nano", "mi300a"}).Draw(t, "gputype")
-	c.Prog = kgen.GenProgram(t, kgen.GenOpts{
+	opts := kgen.GenOpts{
 		MaxItems: 2048, MaxOps: 16, LDS: true, Partial: true, UniqueStores: true,
 		Exit: rapid.Bool().Draw(t, "exits"),
 		Comm: rapid.IntRange(0, 3).Draw(t, "comm") > 0,
-	})
+	}
+	switch rapid.IntRange(0, 4).Draw(t, "shape") {
+	case 0, 4:
+		// one compute unit, 5-10 resident groups of 256 work-items that communicate through barriers:
+		// more wavefronts wait at barriers than the scheduler's barrier buffer holds
+		c.CUPerSA, c.SAs = 1, 1
+		groups := rapid.IntRange(6, 10).Draw(t, "groups")
+		opts.FixedGeo = &kgen.Geometry{Grid: [3]uint32{uint32(256 * groups), 1, 1}, WG: [3]uint16{256, 1, 1}}
+		opts.Comm, opts.Partial, opts.MaxOps, opts.MaxValues = true, false, 10, 8
+	case 1:
+		c.CUPerSA = rapid.SampledFrom([]int{1, 2}).Draw(t, "cupersa")
+		c.SAs = rapid.SampledFrom([]int{1, 2, 4}).Draw(t, "sas")
+	}
+	c.Prog = kgen.GenProgram(t, opts)
 	return c
 }
 
@@ -219,6 +235,12 @@ func RunCase(c Case) (res stats.Result) {
 		res.Labels = append(res.Labels, "lazy-waitcnt")
 	}
 	res.Labels = append(res.Labels, fmt.Sprintf("waves-per-group:%d", bucket(f.WavesPerWG)))
+	if c.CUPerSA > 0 {
+		res.Labels = append(res.Labels, fmt.Sprintf("compute-units:%d", c.CUPerSA*c.SAs))
+		if c.CUPerSA*c.SAs == 1 && f.Waves > 16 && f.LDS > 0 {
+			res.Labels = append(res.Labels, "more-than-16-wavefronts-on-one-cu-with-barriers")
+		}
+	}
 
 	run := func(spec plat.Spec) (*kgen.Outcome, *plat.InstTrace, *plat.DispatchTrace, error) {
 		pl, err := plat.New(spec)
@@ -252,7 +274,7 @@ func RunCase(c Case) (res stats.Result) {
 		res.Violation = "emulation: values differ from the program's meaning: " + d
 		return
 	}
-	ot, tr, dt, err := run(plat.Spec{Timing: true, GPUType: c.GPUType, NumGPUs: 1})
+	ot, tr, dt, err := run(plat.Spec{Timing: true, GPUType: c.GPUType, NumGPUs: 1, CUPerSA: c.CUPerSA, SAs: c.SAs})
 	if err != nil {
 		res.Violation = fmt.Sprintf("timing (%s) fails: %v", c.GPUType, err)
 		known(err)
@@ -294,7 +316,7 @@ func TestPropComm(t *testing.T) {
 		r := RunCase(c)
 		if r.Violation != "" && !(r.KnownID != "" && stats.KnownActive(r.KnownID)) {
 			c.Prog = kgen.Shrink(c.Prog, 120, func(q *kgen.Program) bool {
-				rr := RunCase(Case{Prog: q, GPUType: c.GPUType})
+				rr := RunCase(Case{Prog: q, GPUType: c.GPUType, CUPerSA: c.CUPerSA, SAs: c.SAs})
 				return rr.Violation != "" && rr.KnownID == r.KnownID
 			})
 			r = RunCase(c)
